@@ -157,7 +157,14 @@ def check_runtime(ctx, fx, cfg):
         import inline
         mb = inline.body(ctx, fx, mf, inline.not_public)  # (`let result_rx = spawn_reporting(future);`)
         sps = [t_ for _bi, t_ in mb.normal_calls() if t_.get("callee") in runtimes.SPAWN_FNS]
-        ok_ = len(sps) == 1 and bool(roots(mb, sps[0]["args"][0])) and all(r_.kind == "arg" or r_.kind.startswith("call:") for r_ in roots(mb, sps[0]["args"][0])) and any(r_.kind == "arg" for r_ in roots(mb, sps[0]["args"][0]))
+        rs_ = set(roots(mb, sps[0]["args"][0])) if len(sps) == 1 else set()
+        # (a task that is the future of a crate-local `async fn` given the loop future — `report(result_tx, future)` — is made of
+        # what that function is given)
+        for r_ in list(rs_):
+            if r_.kind.startswith("call:") and fx.fn(r_.kind[5:]) is not None and fx.fn(r_.kind[5:]).get("is_async"):
+                for a_ in mb.blocks[r_.site[0]]["t"].get("args", []):
+                    rs_ |= set(roots(mb, a_))
+        ok_ = len(sps) == 1 and bool(rs_) and all(r_.kind == "arg" or r_.kind.startswith("call:") for r_ in rs_) and any(r_.kind == "arg" for r_ in rs_)
         ctx.require(ok_, "R18.5", "%s-uses-ambient-spawn@%s" % (mname, cfg), "%s must hand its future to the runtime's own spawn function exactly once (found %s)" % (mname, [t_["callee"] for t_ in sps]), fn=mf["def"], site=mf["loc"])
     # R18.7 the crate's own `runtime::block_on` (what `#[hannibal::main]` expands to) drives the program on a runtime whose
     # spawned tasks run *beside* the blocked-on future, as smol's global executor and async-std's do (there `block_on` is the
